@@ -114,8 +114,19 @@ def r16_4(ctx: Ctx) -> None:
         facts = q.facts_at(f, r)
         rv = norm(r.value) if r.value is not None else ""
         not_abs = any((not pol) and isinstance(c, ast.Call) and dotted(c.func).endswith("isabs") and c.args and norm(c.args[0]) == rv for c, pol in facts)
-        no_drive = any((not pol) and isinstance(c, ast.Call) and dotted(c.func) == "re.match" and len(c.args) > 1 and norm(c.args[1]) == rv
-                       and isinstance(c.args[0], ast.Constant) and ":" in str(c.args[0].value) for c, pol in facts)
+        def _drive_test(c: ast.AST) -> bool:
+            if not isinstance(c, ast.Call):
+                return False
+            if dotted(c.func) == "re.match" and len(c.args) > 1 and norm(c.args[1]) == rv and isinstance(c.args[0], ast.Constant) and ":" in str(c.args[0].value):
+                return True
+            # a precompiled module-level pattern:  _DRIVE.match(path)
+            if isinstance(c.func, ast.Attribute) and c.func.attr == "match" and isinstance(c.func.value, ast.Name) and c.args and norm(c.args[0]) == rv:
+                for st in ctx.prog.module("py7zr").tree.body:
+                    if isinstance(st, ast.Assign) and norm(st.targets[0]) == c.func.value.id and isinstance(st.value, ast.Call) and dotted(st.value.func) == "re.compile" \
+                            and st.value.args and isinstance(st.value.args[0], ast.Constant) and ":" in str(st.value.args[0].value):
+                        return True
+            return False
+        no_drive = any((not pol) and _drive_test(c) for c, pol in facts)
         ctx.check(not_abs and no_drive, "R16.4", f, r, "sanitiser returns only a path known non-absolute and drive-free",
                   "the arcname sanitiser returns on a path where `isabs(path) or drive-prefix` has not been established false for the returned value")
 
@@ -199,7 +210,7 @@ def r16_6(ctx: Ctx) -> None:
     ctx.check(base_canon, "R16.6", h, rel[0] if rel else h.node, "base canonicalised", "is_relative_to compares against a non-canonical base")
     g = ctx.prog.func("helpers", "is_path_valid")
     for r in [n for n in walk(g.node) if isinstance(n, ast.Return)]:
-        v = r.value
+        v = q.expand_locals(g, r.value) if r.value is not None else None
         good = isinstance(v, ast.Call) and attr_tail(v) == "is_relative_to" and v.args and isinstance(v.args[0], ast.Call) and attr_tail(v.args[0]) == "canonical_path"
         ctx.check(bool(good), "R16.6", g, r, "is_path_valid canonicalises before comparing", "is_path_valid compares without canonicalising the target")
     cp = ctx.prog.func("helpers", "canonical_path")
